@@ -11,6 +11,12 @@ import (
 	"time"
 )
 
+var subRun struct {
+	jsonOut    string
+	noEvidence bool
+	merge      string
+}
+
 // PropFn runs the rule set of one property.
 type PropFn func(c *Ctx)
 
@@ -40,7 +46,12 @@ func main() {
 	dump := flag.String("dump", "", "debug: dump the gated summary of pkg.Func or pkg.Type.Method")
 	goarch := flag.String("goarch", "", "GOARCH override")
 	goos := flag.String("goos", "", "GOOS override")
+	jsonOut := flag.String("json", "", "write a machine-readable summary of the run to this file")
+	noEvidence := flag.Bool("noevidence", false, "do not write evidence/replay files (sub-runs of the thorough tier)")
+	merge := flag.String("merge", "", "directory with summaries of sub-runs (other build configurations, liveness runs) to merge into the evidence")
 	flag.Parse()
+	subRun.jsonOut, subRun.noEvidence, subRun.merge = *jsonOut, *noEvidence, *merge
+	cfgGOOS, cfgGOARCH = *goos, *goarch
 
 	start := time.Now()
 	seed := int64(0)
